@@ -322,3 +322,8 @@ def kf_c02_query_derefs_element_n(case, o, kind, cfg, consts):
     for which, blk in (('dest', 1), ('src', 2)):
         if case.func in C02_DEREF_FIRST[which] and o.fault == '%d:%d' % (blk, len(case.blocks[blk][1])) and len(case.blocks[blk][1]) == m['n'] * unit: return True
     return False
+@pred
+def kf_c10_strpbrk_clears_dest(case, o, kind, cfg, consts):
+    # strpbrk_s: "slen exceeds src" is reported through handle_str_bos_overflow(dest, destbos), which clears dest
+    m = case.meta
+    return case.func == 'strpbrk_s' and kind == 'operand-modified' and m.get('cls') == 'src-bos-small' and o.ret == '75' and o.blocks[2] == case.blocks[2][1]
